@@ -2,6 +2,7 @@
 package common
 
 import (
+	"time"
 	"bufio"
 	"encoding/json"
 	"fmt"
@@ -14,6 +15,12 @@ import (
 )
 
 // ---------------------------------------------------------------- PRNG (splitmix64)
+
+// Every harness process runs with a host time zone that is NOT UTC (and not a whole number of hours away from it):
+// consensus code must not depend on the host's zone, so nothing may change; code that builds calendar dates from
+// `time.Unix(...)`, `x.Local()` or `time.Now()` without converting to UTC then diverges from the (UTC) model and
+// from the property's oracles instead of silently agreeing on a UTC host.
+func init() { time.Local = time.FixedZone("verif+0930", 9*3600+1800) }
 
 type Rng struct{ s uint64 }
 
